@@ -427,3 +427,30 @@ BOUNDED_HARNESSES = {
     "c10_weak_many_0": "N = 0", "c10_weak_many_1": "N = 1", "c10_weak_many_3": "N = 3", "c10_weak_many_8": "N = 8",
 }
 DEV = ("RG", "L2S", "L2W", "DISP", "EP", "L3", "DEFD", "L3B", "L3C", "Q", "LST")
+
+
+# Native demonstrations (integration tests, public API only) of the defects that were repaired in /repo.
+# When a check reports one of these obligations again and the verifier's own counterexample cannot be
+# replayed natively (stub-based unit), ./check runs the demonstration against the tree under check: if
+# it fails there, the VIOLATION is backed by a failing native run of the real code (replay file:
+# "native_demonstration"); if it passes (a different way of breaking the same obligation), the line keeps
+# its no-failing-input-found suffix.
+REGRESSION_DEMOS = {
+    "C05.cascade.destructed_set_before_destruction": dict(demo="replay/f2_demo.rs", defect="F2"),
+    "C09.cas.err_only_if_not_ptr_eq_epoch_bits_invisible": dict(demo="replay/f3_demo.rs", defect="F3"),
+    "C09.cas_tag.err_only_if_not_ptr_eq": dict(demo="replay/f3_demo.rs", defect="F3"),
+    "C10.weak_many.every_result_refers_to_receiver": dict(demo="replay/f4_f5_demo.rs", defect="F4"),
+    "C10.new_many.zero_owners_object_released": dict(demo="replay/f4_f5_demo.rs", defect="F5"),
+    "C10.new_many_iter.zero_owners_object_released": dict(demo="replay/f4_f5_demo.rs", defect="F5"),
+    "C02.wsnap_upgrade.success_leaves_stamp_of_epoch_read_in_this_call": dict(demo="replay/f6_demo.rs", defect="F6"),
+    "C16.unpin.counts_one_guard_less": dict(demo="replay/f7_demo.rs", defect="F7"),
+    "C16.flush.keeps_the_announced_epoch_under_a_live_guard": dict(demo="replay/f9_demo.rs", defect="F9"),
+    "C13.defer.keeps_the_announced_epoch_inside_a_critical_section": dict(demo="replay/f9_demo.rs", defect="F9"),
+    "C16.collect.keeps_the_announced_epoch_while_another_guard_is_alive": dict(demo="replay/f9b_demo.rs", defect="F9b"),
+    "C16.unpin.collection_keeps_the_epoch_of_a_guard_kept_by_a_destructor": dict(demo="replay/f9b_demo.rs", defect="F9b"),
+    "C16.dispose.periodic_re_announcement_keeps_the_epoch_of_a_foreign_guard": dict(demo="replay/f9b_demo.rs", defect="F9b"),
+    "C02.cascade.second_edge_stamp_judged_against_the_current_clock": dict(demo="replay/f11_demo.rs", defect="F11"),
+    "auto:assertion failed: handle_count >= 1": dict(demo="replay/f12_demo.rs", defect="F12"),
+    "C10.new_many_iter.never_returns_fewer_owners_than_it_hands_out": dict(demo="replay/f13_demo.rs", defect="F13"),
+    "C04.upgrade.failed_upgrade_leaves_no_trace_on_the_count_word": dict(demo="replay/f14_demo.rs", defect="F14", release=True),
+}
